@@ -100,7 +100,8 @@ PROP = dict(
     technique="Lean 4 proof (invariants over the tokenizer fold, sorted-list reasoning) + exhaustive differential correspondence against model and grammar spec",
     modules=["TinodeVerif.Props.C19", "TinodeVerif.Props.C19t", "TinodeVerif.Props.C19f"],
     theorems=[T + n for n in ["parse_eq_grammar", "malformed_rejected", "tags_normal", "restricted_ns_immutable", "settags_nonowner_refused", "gettags_nonowner_refused", "settags_immutable_refused", "settags_needs_attachment", "new_topic_immutable_refused",
-                              "matchTags_iff", "matched_are_shared", "found_iff", "never_the_searcher", "hidden_from_ordinary_users", "masked_tag_refused"]],
+                              "matchTags_iff", "matched_are_shared", "found_iff", "never_the_searcher", "hidden_from_ordinary_users", "masked_tag_refused",
+                              "account_tags_immutable_refused", "account_tags_need_attachment", "account_tags_stored_normalised"]],
     streams=[dict(name="search", pkg="main", gen=gen_search, classify=classify), world.world_stream("C19")],
     seeds=dict(quick=1, thorough=2),
     exhaustive=dict(quick=True, thorough=True),
